@@ -475,3 +475,20 @@ def rename_by_model(ir, label_stmt_locator, new, rom="low", files=None, usermap=
     walk(ir, fix)
     target["n"] = new
     return ir
+
+
+def nest(depth: int, inner: list, kinds=("block", "scope", "if", "for"), tag="d") -> list:
+    """`inner` wrapped in `depth` nested constructs (kinds cycling): blocks, named scopes, literal-true .if, one-iteration
+    .for loops -- for properties that must hold at any nesting depth"""
+    body = inner
+    for i in range(depth - 1, -1, -1):
+        k = kinds[i % len(kinds)]
+        if k == "block":
+            body = [{"k": "block", "b": body}]
+        elif k == "scope":
+            body = [{"k": "scope", "n": f"sc_{tag}{i}", "b": body}]
+        elif k == "if":
+            body = [{"k": "if", "c": ["lit", 1, "d"], "t": body, "e": None}]
+        else:
+            body = [{"k": "for", "v": f"i_{tag}{i}", "lo": ["lit", 0, "d"], "hi": ["lit", 1, "d"], "b": body}]
+    return body
